@@ -350,7 +350,13 @@ def cases(draw):
     for _ in range(n):
         k = draw(st.integers(1, 3))
         cls.append([draw(st.sampled_from([1, 2, 3, 4])) * draw(st.sampled_from([1, -1])) for _ in range(k)])
-    if draw(st.integers(0, 3)) == 0:
+    if draw(st.integers(0, 5)) == 0:
+        # directed: every clause trivially true, several clauses over the same literals in different order / multiplicity
+        # (different formulas with equal literal sets)
+        v = draw(st.sampled_from([1, 2, 3, 4])); w = draw(st.sampled_from([1, 2, 3, 4]))
+        shapes = [[v, -v], [-v, v], [v, v, -v], [-v, v, v], [v, -v, w], [w, v, -v], [-v, w, v]]
+        cls = [list(draw(st.sampled_from(shapes))) for _ in range(draw(st.integers(2, 4)))]
+    elif draw(st.integers(0, 3)) == 0:
         # directed: a resolution step both of whose parents keep other literals, one parent repeating a literal in its remainder
         # (clauses are lists; nothing in the clause-list stage removes repeats), closed off by units so that the set is UNSAT
         pv, a_, b_ = draw(st.permutations([1, 2, 3, 4]))[:3]
